@@ -15,6 +15,11 @@ theorem pin_reply_sending : src_reply_sending = "set(answers)" := by decide
 theorem pin_reply_additionals : src_reply_additionals = "answers[answer]" := by decide
 theorem pin_reply_iter : src_reply_iter = "additionals" := by decide
 theorem pin_reply_test : src_reply_test = "additional not in sending" := by decide
+/-- the record remembered as sent is the additional just sent -/
+theorem pin_reply_sending_add : src_reply_sending_add = "additional" := by decide
+theorem pin_reply_add_additional : src_reply_add_additional = "additional" := by decide
+theorem pin_reply_add_answer : src_reply_add_answer = "answer" := by decide
+theorem pin_reply_answer_iter : src_reply_answer_iter = "sorted(answers, key=NAME_GETTER)" := by decide
 theorem pin_reply_census : src_reply_census = "AnnAssign:1 Assign:1 Expr:3 For:2 If:1 | sending additionals" := by decide
 
 end Zc.GenFacts.IdentPins
